@@ -355,6 +355,11 @@ def c17(ctx):
     opn, _ = vlib.known_findings(ctx.prop)
     ctx.model_check("MemoizeMC", "MemoizeMC.cfg", workers=12, xmx="10g")
     ctx.model_check("MemoizeMC", "MemoizeMC_kf.cfg", expect_violation="OneInFlight")
+    # design level: Memoize on singleflight.Do + Cache, one action per critical section, all interleavings of
+    # 3 callers x 2 keys with expiry; without the flight lookup / with an early release two executions overlap
+    ctx.model_check("MemoizeImplMC", "MemoizeImplMC%s.cfg" % ("_deep" if ctx.tier == "thorough" else ""), workers=12, xmx="10g", timeout=1800)
+    ctx.model_check("MemoizeImplMC", "MemoizeImplMC_noflight.cfg", expect_violation="OneInFlight")
+    ctx.model_check("MemoizeImplMC", "MemoizeImplMC_early.cfg", expect_violation="OneInFlight")
     out = os.path.join(ctx.scratch, "t", "memoize")
     summ = ctx.drive_procs("memoize", ["-out", out], 12)
     if summ["nodes"] < 10:
@@ -378,8 +383,15 @@ def c01(ctx):
     ctx.prepare = prepare_probes
     prepare_probes(ctx)
     opn, _ = vlib.known_findings(ctx.prop)
-    ctx.model_check("LockModel", "LockModel.cfg", workers=12, xmx="10g")
-    ctx.model_check("LockModel", "LockModel_neg.cfg", expect_violation="Complete")
+    # the checker checked: the vector-clock acceptor is exactly happens-before (declarative definition) on every
+    # execution of small lock programs, an accepted execution never has two threads inside conflicting accesses,
+    # and the two negative controls fail as they must (measured: 7 s; deep 160 s + 70 s)
+    ctx.model_check("HBModel", "HBModel.cfg", workers=12, xmx="10g")
+    if ctx.tier == "thorough":
+        ctx.model_check("HBModel", "HBModel_deep.cfg", workers=12, xmx="12g", timeout=3000)
+        ctx.model_check("HBModel", "HBModel_deep3.cfg", workers=12, xmx="12g", timeout=3000)
+    ctx.model_check("HBModel", "HBModel_neg.cfg", expect_violation="Complete")
+    ctx.model_check("HBModel", "HBModel_transfer.cfg", expect_violation="Transfer")
     out = os.path.join(ctx.scratch, "t", "race")
     summ = ctx.drive_procs("race", ["-out", out], 12)
     if summ["nodes"] < 10:
